@@ -128,32 +128,7 @@ def run_one(ck, prog):
     ck.floor("C17.1", "counter arithmetic sites", n_arith, 3)
 
     # ---- C17.2 capacity and index formulae --------------------------------------------------------------------------------
-    g = prog.ctx(fns["get_next_sqe_slot"])
-    somes = [b["id"] for b in fns["get_next_sqe_slot"]["blocks"] if b["id"] in g.cfg.live_blocks() and any(s["k"] == "assign" and s["dst"]["l"] == 0 and s["rv"]["k"] == "agg" and s["rv"].get("variant") == "Some" for s in b["stmts"])]
-    ck.ob("C17.2", "anchor|slot-returned", len(somes) == 1, fn=g.path, detail=f"Some(..) returns: {len(somes)}")
-    for sb in somes:
-        facts = panics.dominating_facts(g, sb)
-        cap = False
-        for f in facts:
-            if f[0] == "cmp" and f[1] in ("Le", "Lt", "Ge", "Gt"):
-                sides = [strip_casts(f[2]), strip_casts(f[3])]
-                diff = [x for x in sides if isinstance(x, tuple) and x[0] == "call" and (x[1] or "").endswith("u32>::wrapping_sub")]
-                ent = [x for x in sides if mentions(x, g.prov, lambda z: z[0] == "field" and z[2] == "ring_entries")]
-                if diff and ent:
-                    d = diff[0]
-                    nxt_ok = mentions(d[2][0], g.prov, lambda z: z[0] == "call" and (z[1] or "").endswith("u32>::wrapping_add") and mentions(z[2][0], g.prov, lambda w: w[0] == "field" and w[2] == "tail") and fold(z[2][1]) == 1)
-                    head_ok = all_defs(d[2][1], g.prov, lambda z: isinstance(z, tuple) and z[0] == "call" and (z[1] or "").endswith(("acquire_khead", "get_khead_relaxed")))
-                    le = (f[1] == "Le" and strip_casts(f[2]) is d) or (f[1] == "Ge" and strip_casts(f[3]) is d)
-                    cap = nxt_ok and head_ok and le
-        ck.ob("C17.2", "slot-only-when-space", cap, fn=g.path, detail="a slot may be handed out only under (tail + 1) - kernel_head <= ring_entries, computed with wrapping arithmetic, where kernel_head is on every path the head word the KERNEL publishes (a private copy of what was flushed says nothing about what the kernel has consumed)")
-        # index formula
-        idx_ok = False
-        for bb, t in g.cfg.calls(lambda t: (t.get("callee") or "").endswith("::add")):
-            a = g.args(bb)
-            if mentions(a[0], g.prov, lambda z: z[0] == "field" and z[2] == "entries"):
-                e = strip_casts(a[1])
-                idx_ok = shape_masked_shift(e, g.prov, "tail")
-        ck.ob("C17.2", "sqe-index=(tail&mask)<<shift", idx_ok, fn=g.path, detail="the slot index must be (tail & ring_mask) << shift")
+    check_slot_capacity(ck, prog, "C17.2")
     c = prog.ctx(fns["get_next_cqe"])
     idx_ok = False
     for bb, t in c.cfg.calls(lambda t: (t.get("callee") or "").endswith("::add")):
@@ -292,3 +267,36 @@ def shape_masked_shift(e, prov, field, loader=None):
     else:
         has_src = any(mentions(x, prov, lambda z: z[0] == "call" and (z[1] or "").endswith(loader)) for x in sides)
     return has_mask and has_src
+
+
+def check_slot_capacity(ck, prog, rule):
+    """a submission slot is handed out only when the KERNEL's head shows room; slot index = (tail & mask) << shift (shared by C17.2 and C18.6)"""
+    fns = {n: prog.fns.get(URING + n) for n in ("get_next_sqe_slot",)}
+    if not ck.anchor(rule, "get_next_sqe_slot", fns["get_next_sqe_slot"]):
+        return
+    g = prog.ctx(fns["get_next_sqe_slot"])
+    somes = [b["id"] for b in fns["get_next_sqe_slot"]["blocks"] if b["id"] in g.cfg.live_blocks() and any(s["k"] == "assign" and s["dst"]["l"] == 0 and s["rv"]["k"] == "agg" and s["rv"].get("variant") == "Some" for s in b["stmts"])]
+    ck.ob(rule, "anchor|slot-returned", len(somes) == 1, fn=g.path, detail=f"Some(..) returns: {len(somes)}")
+    for sb in somes:
+        facts = panics.dominating_facts(g, sb)
+        cap = False
+        for f in facts:
+            if f[0] == "cmp" and f[1] in ("Le", "Lt", "Ge", "Gt"):
+                sides = [strip_casts(f[2]), strip_casts(f[3])]
+                diff = [x for x in sides if isinstance(x, tuple) and x[0] == "call" and (x[1] or "").endswith("u32>::wrapping_sub")]
+                ent = [x for x in sides if mentions(x, g.prov, lambda z: z[0] == "field" and z[2] == "ring_entries")]
+                if diff and ent:
+                    d = diff[0]
+                    nxt_ok = mentions(d[2][0], g.prov, lambda z: z[0] == "call" and (z[1] or "").endswith("u32>::wrapping_add") and mentions(z[2][0], g.prov, lambda w: w[0] == "field" and w[2] == "tail") and fold(z[2][1]) == 1)
+                    head_ok = all_defs(d[2][1], g.prov, lambda z: isinstance(z, tuple) and z[0] == "call" and (z[1] or "").endswith(("acquire_khead", "get_khead_relaxed")))
+                    le = (f[1] == "Le" and strip_casts(f[2]) is d) or (f[1] == "Ge" and strip_casts(f[3]) is d)
+                    cap = nxt_ok and head_ok and le
+        ck.ob(rule, "slot-only-when-space", cap, fn=g.path, detail="a slot may be handed out only under (tail + 1) - kernel_head <= ring_entries, computed with wrapping arithmetic, where kernel_head is on every path the head word the KERNEL publishes (a private copy of what was flushed says nothing about what the kernel has consumed)")
+        # index formula
+        idx_ok = False
+        for bb, t in g.cfg.calls(lambda t: (t.get("callee") or "").endswith("::add")):
+            a = g.args(bb)
+            if mentions(a[0], g.prov, lambda z: z[0] == "field" and z[2] == "entries"):
+                e = strip_casts(a[1])
+                idx_ok = shape_masked_shift(e, g.prov, "tail")
+        ck.ob(rule, "sqe-index=(tail&mask)<<shift", idx_ok, fn=g.path, detail="the slot index must be (tail & ring_mask) << shift")
